@@ -121,11 +121,11 @@ fn socket_guest(isa: &Isa) -> (Vec<u8>, u32, u32) {
 }
 
 /// C18: the real binary with `-s -w`, a loopback client, lines in several TCP chunkings.
-pub fn c18_unit() -> Unit {
+pub fn c18_unit(thorough: bool) -> Unit {
     Unit::new(
         "real-binary/socket",
         3,
-        "the repository's own release binary started with -s -w: `ready` is announced, nothing runs before cmd:start, u8 lines (one per guest output byte incl. backslash and newline) sent as {one write per batch, one write per line, one write per byte} interleaved with malformed lines in the same write reach the guest exactly once in order, every outgoing message arrives as one escaped line, cmd:pause/cmd:start hold and resume, and the process exits after the guest's last byte",
+        "the repository's own release binary started with -s -w: `ready` is announced, nothing runs before cmd:start, u8 lines (one per guest output byte incl. backslash and newline) sent as {one write per batch, one write per line, one write per byte} interleaved with malformed lines in the same write reach the guest exactly once in order, every outgoing message arrives as one escaped line, cmd:pause/cmd:start hold and resume, and the process exits after the guest's last byte; thorough tier: before the last byte nothing is sent for 33 seconds (the line after the quiet period must still be acted on)",
         move |ctx, chunk| {
             let bin = match repo_binary() {
                 Some(b) => b,
@@ -274,6 +274,15 @@ pub fn c18_unit() -> Unit {
                             Some(l) if l == "stdout:P" => {}
                             other => verdict = Some(format!("after cmd:start the paused poke should be answered with stdout:P, got {:?}", other)),
                         }
+                    }
+                }
+                if verdict.is_none() && thorough && mode == 0 {
+                    // 3b. a quiet period on the incoming direction (outgoing heartbeats continue)
+                    std::thread::sleep(std::time::Duration::from_secs(33));
+                    send(&mut s, &[u8line(b'Q')]);
+                    match next_line(20_000) {
+                        Some(l) if l == "stdout:Q" => {}
+                        other => verdict = Some(format!("after 33 s without incoming lines the poke should be answered with stdout:Q, got {:?}", other)),
                     }
                 }
                 if verdict.is_none() {
